@@ -589,6 +589,15 @@ pub fn preprocess_str<T: AsRef<Path>, U: AsRef<Path>, V: BuildHasher>(
                 let locate: Locate = x.try_into().unwrap();
                 let range = Range::new(locate.offset, locate.offset + locate.len);
                 ret.push(locate.str(&s), Some((path.as_ref(), range)));
+                // A one-line comment that runs to the end of a macro expansion (e.g. one that
+                // came in with an actual argument) must not swallow what follows the usage.
+                if resolve_depth > 0
+                    && locate.str(&s).starts_with("//")
+                    && !locate.str(&s).ends_with('\n')
+                {
+                    let end = locate.offset + locate.len;
+                    ret.push("\n", Some((path.as_ref(), Range::new(end - 1, end))));
+                }
             }
             NodeEvent::Enter(RefNode::Comment(x)) => {
                 // A stripped comment still separates the tokens around it.
@@ -597,7 +606,7 @@ pub fn preprocess_str<T: AsRef<Path>, U: AsRef<Path>, V: BuildHasher>(
                 if locate.str(&s).starts_with("/*") {
                     let range = Range::new(locate.offset, locate.offset + 1);
                     ret.push(" ", Some((path.as_ref(), range)));
-                } else if locate.str(&s).ends_with('\n') {
+                } else if locate.str(&s).ends_with('\n') || resolve_depth > 0 {
                     let range = Range::new(end - 1, end);
                     ret.push("\n", Some((path.as_ref(), range)));
                 }
